@@ -33,6 +33,7 @@ from fortls.constants import (
 )
 from fortls.helper_functions import (
     expand_name,
+    find_word_in_line,
     fortran_md,
     get_line_prefix,
     get_paren_level,
@@ -1882,6 +1883,15 @@ class LangServer:
         sline, (schar, echar) = obj_file.find_word_in_code_line(obj.sline - 1, obj.name)
         if schar < 0:
             schar = echar = 0
+        elif obj.get_type() == VAR_TYPE_ID:
+            # An entity may be spelled like a name in its type specification
+            # (`type(point) :: point`): the entity is the one after the `::`
+            line = obj_file.get_line(sline) or ""
+            sep = line.find("::")
+            if schar < sep:
+                entity = find_word_in_line(line[sep:], obj.name.lower())
+                if entity.start >= 0:
+                    schar, echar = sep + entity.start, sep + entity.end
         return uri_json(path_to_uri(obj_file.path), sline, schar, sline, echar)
 
     def _update_version_pypi(self, test: bool = False):
